@@ -196,7 +196,7 @@ def build_reps(variant=0):
 INV_ALGS = ["Auto", "CG", "GMRES", "LU", "Cholesky"]
 PINV_ALGS = ["Auto", "CG", "LSTSQ"]
 LOG_ALGS = ["Auto", "Cholesky", "LU", "Lanczos", "Arnoldi"]
-TRACE_ALGS = ["Auto", "Exact", "Hutch"]
+TRACE_ALGS = ["Auto", "Exact", "Hutch", "HutchPP"]   # HutchPP is dispatched uniquely and raises NotImplementedError inside its rule (diag)
 UNARY_ALGS = ["Auto", "Eig", "Eigh", "Lanczos", "Arnoldi"]
 EIG_ALGS = ["Auto", "Eig", "Eigh", "Lanczos", "Arnoldi", "LOBPCG", "PowerIteration"]
 SVD_ALGS = ["Auto", "DenseSVD", "Lanczos", "LOBPCG"]
